@@ -19,6 +19,7 @@ package engine
 import (
 	"encoding/base64"
 	"path"
+	"sort"
 	"strings"
 
 	"github.com/gobwas/glob"
@@ -110,11 +111,23 @@ func (f files) AsConfig() string {
 	m := make(map[string]string)
 
 	// Explicitly convert to strings, and file names
-	for k, v := range f {
-		m[path.Base(k)] = string(v)
+	// Visit the files in sorted order: when two files share a base name the
+	// one that wins must not depend on map iteration order.
+	for _, k := range f.sortedNames() {
+		m[path.Base(k)] = string(f[k])
 	}
 
 	return toYAML(m)
+}
+
+// sortedNames returns the file names in lexical order.
+func (f files) sortedNames() []string {
+	names := make([]string, 0, len(f))
+	for k := range f {
+		names = append(names, k)
+	}
+	sort.Strings(names)
+	return names
 }
 
 // AsSecrets returns the base64-encoded value of a Files object suitable for
@@ -139,8 +152,8 @@ func (f files) AsSecrets() string {
 
 	m := make(map[string]string)
 
-	for k, v := range f {
-		m[path.Base(k)] = base64.StdEncoding.EncodeToString(v)
+	for _, k := range f.sortedNames() {
+		m[path.Base(k)] = base64.StdEncoding.EncodeToString(f[k])
 	}
 
 	return toYAML(m)
